@@ -572,6 +572,11 @@ class TrackerProp(Prop):
         # boundary addresses by construction, through both carriers (DF17 and DF18 / TIS-B): all zero, one, all ones, a zero middle byte
         for dfs in ([18, 18, 18, 18], [17, 17, 17, 17], [18, 17, 17, 18]):
             ops += gentrack.history(rng, 60, n_planes=4, with_time=self.with_time, addrs=[0x000000, 0x000001, 0xFFFFFF, 0x00FF00], dfs=dfs)
+        # a range limit that is not a finite number of km ("unlimited"): every decodable pair is in range, and everything else - distance present
+        # iff position, details, the text view - holds as for any other limit (seed C14_g skipped the block that records the distance)
+        for rg in ("inf", "1e308", "inf"):
+            h = gentrack.history(rng, 60, n_planes=3, with_time=self.with_time)
+            h[0] = " ".join(h[0].split()[:4] + [rg]); ops += h
         return ops
     with_time = True
     def equal(self, a, m): return a == m or numeq(a, m)
@@ -629,6 +634,7 @@ class C13(TrackerProp):
         for k in range(30 if tier == "quick" else 300): ops += gentrack.wrap_history(rng)
         for k in range(30 if tier == "quick" else 300): ops += gentrack.outbound_history(rng)
         for k in range(30 if tier == "quick" else 300): ops += gentrack.moving_receiver_history(rng)
+        for k in range(30 if tier == "quick" else 300): ops += gentrack.lon_alias_history(rng)
         return ops
 
 class C14(TrackerProp):
@@ -906,6 +912,8 @@ def text_equal(a, m, tol=2e-3):
         # printed integers (the rounded track, the floored speed, altitudes, rates, counts) must be equal as printed: the tolerance is for the
         # formatting of fractional values only (seed C11_f: a speed one knot off passed as "within 0.2 %")
         # (the model's driver prints a whole number as `4160.000000`)
+        # a printed sign is part of the text: `-0` is not `0` (seed C11_g printed the sign field in front of a zero rate)
+        if x.startswith("-") != y.startswith("-"): return False
         if fx == int(fx) and fy == int(fy):
             if fx != fy: return False
             continue
@@ -1124,11 +1132,13 @@ class C18(E2EProp):
             "screen (cell tolerance 1), not proved (the projection theorems are over the reals)")
     def scenarios(self, rng, tier, report):
         import show
+        many = show.start_many_messages(rng, tier, report)          # two minutes of wall clock, mostly waiting: runs beside the others
         show.check_table_and_stats(rng, tier, report)
         show.check_stats_expiry(rng, tier, report)
         show.check_map(rng, tier, report)
         show.check_map_sites(rng, tier, report)
         show.check_map_aircraft(rng, tier, report)
+        many.join(480)
 
 class C19(Prop):
     id = "C19"; module = "Adsb.Theorems.C19"; design_ref = "5/C19"
